@@ -24,6 +24,7 @@ import (
 func main() {
 	flag.Parse()
 	r := ev.Start("C14")
+	defer r.RecoverMain()
 	defer world.Cleanup()
 	r.Assume("independent reader written from docs/schema-native.md", "values {empty, 1 byte, 5 kB}; entry flags: all byte values, 2^8, 2^32-1; timestamps {0,1,2^63,2^64-1}")
 
